@@ -128,46 +128,50 @@ Theorem c18_broadcast_language_value : forall l base native tr,
 Proof. exact get_text_in_pair. Qed.
 Print Assumptions c18_broadcast_language_value.
 
-(* the other senders of localized text.  An email carries the chain's choice for its subject and, independently,
-   for its body; it is skipped exactly when one of them is empty *)
-Theorem c18_send_email : forall contact_lang allowed base subject body tr_subject tr_body,
+(* the other senders of localized text.  An email carries the evaluation of the chain's choice for its subject and,
+   independently, for its body (for any evaluation functions); it is skipped exactly when one of them is empty as
+   evaluated *)
+Theorem c18_send_email : forall ev_s ev_b contact_lang allowed base subject body tr_subject tr_body,
   exists outs useds outb usedb,
     spec_pick contact_lang allowed base [subject] tr_subject outs useds
     /\ spec_pick contact_lang allowed base [body] tr_body outb usedb
-    /\ ((hd [] outs = [] \/ hd [] outb = []) ->
-        send_email_texts contact_lang allowed base subject body tr_subject tr_body = None)
-    /\ (hd [] outs <> [] -> hd [] outb <> [] ->
-        send_email_texts contact_lang allowed base subject body tr_subject tr_body
-        = Some (hd [] outs, hd [] outb)).
-Proof. exact send_email_spec. Qed.
+    /\ ((ev_s (hd [] outs) = [] \/ ev_b (hd [] outb) = []) ->
+        send_email_texts_gen ev_s ev_b contact_lang allowed base subject body tr_subject tr_body = None)
+    /\ (ev_s (hd [] outs) <> [] -> ev_b (hd [] outb) <> [] ->
+        send_email_texts_gen ev_s ev_b contact_lang allowed base subject body tr_subject tr_body
+        = Some (ev_s (hd [] outs), ev_b (hd [] outb))).
+Proof. exact send_email_gen_spec. Qed.
 Print Assumptions c18_send_email.
 
-(* a spoken message (say_msg): text and audio URL are each the chain's choice; the locale names the language
-   actually used for its text, and for a message whose text is empty (as evaluated) the language of its audio URL *)
-Theorem c18_say_msg : forall ev contact_lang allowed base txt audio tr_txt tr_audio,
+(* a spoken message (say_msg), for any evaluation [ev] of its text and any rule [keep] about which audio URLs fit into an
+   attachment (the code drops a URL with which "audio:<url>" is longer than 2048 bytes): text and audio URL are each
+   the chain's choice; the locale names the language actually used for its text, and for a message whose text is empty
+   (as evaluated) the language of its audio URL *)
+Theorem c18_say_msg : forall ev keep contact_lang allowed base txt audio tr_txt tr_audio,
   exists outt usedt outa useda,
     spec_pick contact_lang allowed base [txt] tr_txt outt usedt
     /\ spec_pick contact_lang allowed base [audio] tr_audio outa useda
-    /\ (ev (hd [] outt) = [] -> hd [] outa = [] ->
-        say_msg_out_gen ev contact_lang allowed base txt audio tr_txt tr_audio = None)
+    /\ (ev (hd [] outt) = [] -> keep (hd [] outa) = [] ->
+        say_msg_out_gen ev keep contact_lang allowed base txt audio tr_txt tr_audio = None)
     /\ (ev (hd [] outt) <> [] ->
-        say_msg_out_gen ev contact_lang allowed base txt audio tr_txt tr_audio
-        = Some {| i_text := ev (hd [] outt); i_audio := hd [] outa; i_lang := usedt |})
-    /\ (ev (hd [] outt) = [] -> hd [] outa <> [] ->
-        say_msg_out_gen ev contact_lang allowed base txt audio tr_txt tr_audio
-        = Some {| i_text := []; i_audio := hd [] outa; i_lang := useda |}).
+        say_msg_out_gen ev keep contact_lang allowed base txt audio tr_txt tr_audio
+        = Some {| i_text := ev (hd [] outt); i_audio := keep (hd [] outa); i_lang := usedt |})
+    /\ (ev (hd [] outt) = [] -> keep (hd [] outa) <> [] ->
+        say_msg_out_gen ev keep contact_lang allowed base txt audio tr_txt tr_audio
+        = Some {| i_text := []; i_audio := keep (hd [] outa); i_lang := useda |}).
 Proof. exact say_msg_gen_spec. Qed.
 Print Assumptions c18_say_msg.
 
-(* a played recording (play_audio) is a text-less message: the locale names the language used for its attachment *)
-Theorem c18_play_audio : forall contact_lang allowed base audio tr_audio,
+(* a played recording (play_audio) is a text-less message, for any evaluation [ev] of the URL and any attachment rule
+   [keep]: the locale names the language used for its attachment; it is skipped when nothing is left of the URL *)
+Theorem c18_play_audio : forall ev keep contact_lang allowed base audio tr_audio,
   exists out used,
     spec_pick contact_lang allowed base [audio] tr_audio out used
-    /\ (hd [] out = [] -> play_audio_out contact_lang allowed base audio tr_audio = None)
-    /\ (hd [] out <> [] ->
-        play_audio_out contact_lang allowed base audio tr_audio
-        = Some {| i_text := []; i_audio := hd [] out; i_lang := used |}).
-Proof. exact play_audio_spec. Qed.
+    /\ (keep (ev (hd [] out)) = [] -> play_audio_out_gen ev keep contact_lang allowed base audio tr_audio = None)
+    /\ (keep (ev (hd [] out)) <> [] ->
+        play_audio_out_gen ev keep contact_lang allowed base audio tr_audio
+        = Some {| i_text := []; i_audio := keep (ev (hd [] out)); i_lang := used |}).
+Proof. exact play_audio_gen_spec. Qed.
 Print Assumptions c18_play_audio.
 
 (* messages whose values are templates: whatever the evaluation of the localized values gives, each part of the
@@ -193,15 +197,18 @@ Theorem c18_locale_evaluated : forall ev_text ev_atts ev_qrs contact_lang allowe
 Proof. exact evaluate_message_gen_locale. Qed.
 Print Assumptions c18_locale_evaluated.
 
-(* a message built from a channel template: its variables are the chain's choice for the action's template
-   variables, padded/cut to the number of variables of the template translation *)
-Theorem c18_template_variables : forall contact_lang allowed base n vars tr,
+(* a message built from a channel template: its variables are the evaluations (any [ev]) of the chain's choice for the
+   action's template variables, one by one, padded with "" / cut to the number of variables of the template
+   translation *)
+Theorem c18_template_variables : forall ev contact_lang allowed base n vars tr,
   exists out used,
     spec_pick contact_lang allowed base vars tr out used
-    /\ length (template_variables contact_lang allowed base n vars tr) = n
-    /\ forall i, (i < n)%nat ->
-         nth i (template_variables contact_lang allowed base n vars tr) [] = nth i out [].
-Proof. exact template_variables_spec. Qed.
+    /\ length (template_variables_gen ev contact_lang allowed base n vars tr) = n
+    /\ (forall i, (i < n)%nat -> (i < length out)%nat ->
+          nth i (template_variables_gen ev contact_lang allowed base n vars tr) [] = ev (nth i out []))
+    /\ (forall i, (i < n)%nat -> (length out <= i)%nat ->
+          nth i (template_variables_gen ev contact_lang allowed base n vars tr) [] = []).
+Proof. exact template_variables_gen_spec. Qed.
 Print Assumptions c18_template_variables.
 
 (* what a host gets for one recipient of a broadcast (BroadcastTranslations.ForContact over the event's contents).
@@ -221,11 +228,64 @@ Theorem c18_broadcast_for_contact_refuted :
 Proof. exact for_contact_refuted. Qed.
 Print Assumptions c18_broadcast_for_contact_refuted.
 
-Theorem c18_broadcast_for_contact_partial : forall rl allowed base m,
+(* ... the same for the attachments and quick replies (known classes broadcast-for-contact:attachments / :quick-replies):
+   a recipient whose language has only a text translation gets the base attachments and quick replies where the chain
+   gives those of the environment's default language *)
+Theorem c18_broadcast_for_contact_refuted_parts :
+  exists rl allowed base loc_langs m,
+    let o := for_contact rl allowed base (broadcast_translations base loc_langs m) in
+    let w := evaluate_message rl allowed base m in
+    o_atts o <> o_atts w /\ o_qrs o <> o_qrs w /\ o_text o = o_text w.
+Proof.
+  exists 4, [3; 4; 1], 1, [3; 4],
+    {| m_text := [72]; m_atts := [[98]]; m_qrs := [[121]];
+       tr_text := [(3, [[104]]); (4, [[107]])]; tr_atts := [(3, [[99]])]; tr_qrs := [(3, [[115]])] |}.
+  vm_compute. repeat split; discriminate.
+Qed.
+Print Assumptions c18_broadcast_for_contact_refuted_parts.
+
+(* ... and for a content without text (known class broadcast-for-contact:locale:text-less-content-reports-no-language):
+   ForContact reports no language where the statement prescribes the language of the attachments *)
+Theorem c18_broadcast_for_contact_refuted_textless :
+  exists rl allowed base loc_langs m,
+    let o := for_contact rl allowed base (broadcast_translations base loc_langs m) in
+    let w := evaluate_message rl allowed base m in
+    o_text o = [] /\ o_atts o = o_atts w /\ o_atts o <> [] /\ o_lang o = nil_lang /\ o_lang w <> nil_lang.
+Proof.
+  exists 3, [3; 1], 1, [3],
+    {| m_text := []; m_atts := [[98]]; m_qrs := []; tr_text := []; tr_atts := [(3, [[99]])]; tr_qrs := [] |}.
+  vm_compute. repeat split; discriminate.
+Qed.
+Print Assumptions c18_broadcast_for_contact_refuted_textless.
+
+(* the part that holds: a recipient whose language is allowed and COMPLETELY translated (a non-empty translation of
+   each of the three parts, the first text not empty) gets exactly what the chain gives that contact, language
+   included.  The known classes need a language of the recipient's chain that is only partly translated. *)
+Theorem c18_broadcast_for_contact_partial : forall rl allowed base loc_langs m t ts a as_ q qs,
+  rl <> nil_lang -> lang_in rl allowed = true -> rl <> base -> lang_in rl loc_langs = true ->
+  item_translation (tr_text m) rl = t :: ts -> t <> [] ->
+  item_translation (tr_atts m) rl = a :: as_ ->
+  item_translation (tr_qrs m) rl = q :: qs ->
+  let o := for_contact rl allowed base (broadcast_translations base loc_langs m) in
+  let w := evaluate_message rl allowed base m in
+  o_text o = t /\ o_text w = t /\ o_atts o = o_atts w /\ o_qrs o = o_qrs w /\ o_lang o = rl /\ o_lang w = rl.
+Proof. exact for_contact_complete_language. Qed.
+Print Assumptions c18_broadcast_for_contact_partial.
+
+(* ... and without any localization a recipient gets the base content *)
+Theorem c18_broadcast_for_contact_no_localization : forall rl allowed base m,
   let o := for_contact rl allowed base (broadcast_translations base [] m) in
   o_text o = m_text m /\ o_atts o = m_atts m /\ o_qrs o = m_qrs m.
 Proof. exact for_contact_no_localization. Qed.
-Print Assumptions c18_broadcast_for_contact_partial.
+Print Assumptions c18_broadcast_for_contact_no_localization.
+
+(* router case arguments are evaluated one by one after the choice *)
+Theorem c18_router_args_evaluated : forall ev contact_lang allowed base args tr,
+  length (fst (get_text contact_lang allowed base args tr)) = length args ->
+  case_arguments_gen ev contact_lang allowed base args tr
+  = map ev (fst (get_text contact_lang allowed base args tr)).
+Proof. exact case_arguments_gen_spec. Qed.
+Print Assumptions c18_router_args_evaluated.
 
 (* router case arguments against the statement, which knows no length rule ("the first of these that is the base
    language or has a non-empty translation wins", quantified over translations of a different length than the base).
